@@ -55,7 +55,7 @@ def main():
                VERIF_REPLAY_DIR=os.path.join(VERIF, ".work", "detect-replays" + TAG))
     os.makedirs(env["VERIF_EVIDENCE_DIR"], exist_ok=True)
     for commit, pid, what in entries:
-        sh("git checkout -q --detach $(git -C /repo rev-parse HEAD) && git checkout -- . && git clean -fdq", cwd=WT)
+        sh("git reset -q --hard && git checkout -q --detach $(git -C /repo rev-parse HEAD) && git reset -q --hard && git clean -fdq", cwd=WT)
         subject = sh(f"git -C {REPO} log --format=%s -1 {commit}")[1].strip()
         rc, out = sh(f"git -C {REPO} diff {commit} {commit}~1 -- crates | git apply -3 -", cwd=WT)
         rec = dict(property=pid, fix=subject, what=what[:200], tier=tier, repo_head=sh(f"git -C {REPO} rev-parse --short HEAD")[1].strip())
@@ -69,7 +69,7 @@ def main():
             rec.update(applies=True, exit=rc, detected=(rc == 1), violated=[v[:300] for v in violated[:4]], wall_s=round(time.time() - t0))
             print(commit, pid, "exit", rc, "|", (violated[0][:160] if violated else out.strip().splitlines()[-1][:160]), flush=True)
         results[commit] = rec
-        sh("git checkout -- . && git clean -fdq", cwd=WT)
+        sh("git reset -q --hard && git clean -fdq", cwd=WT)
         json.dump(results, open(OUT, "w"), indent=1)
     sh(f"git -C {REPO} worktree remove --force {WT}")
 
